@@ -111,13 +111,15 @@ Section Generic.
   Qed.
 
   Theorem p2wpkh_accepts_iff hrp s d :
-    p2wpkh_decode segwit_dec hrp s = Ok d <-> segwit_dec hrp s = Ok (p2wpkh_wit_ver, d).
+    p2wpkh_decode segwit_dec hrp s = Ok d <-> segwit_dec hrp s = Ok (p2wpkh_wit_ver, d) /\ length d = hash160_len.
   Proof.
     unfold p2wpkh_decode. split.
     - destruct (checksum_to_value_error (segwit_dec hrp s)) as [[v x]|] eqn:E; cbn [bind]; [|discriminate].
+      destruct (validate_length x _) eqn:L; cbn [bind]; [|discriminate].
       destruct (N.eqb_spec v p2wpkh_wit_ver) as [->|]; [|discriminate]. intros H; inversion H; subst x.
-      apply c2v_inv in E. exact E.
-    - intros E. apply c2v_intro in E. rewrite E. cbn [bind Ok]. rewrite N.eqb_refl. reflexivity.
+      apply c2v_inv in E. apply validate_length_inv in L. split; assumption.
+    - intros [E L]. apply c2v_intro in E. rewrite E. cbn [bind Ok].
+      rewrite validate_length_ok by exact L. cbn [bind Ok]. rewrite N.eqb_refl. reflexivity.
   Qed.
 
   Theorem p2tr_accepts_iff hrp s d :
@@ -220,39 +222,26 @@ Section Concrete.
     apply Lemmas.Bech32Bits.to_from_base32 in F. apply F.
   Qed.
 
-  (* P2WPKH.  Full statement
-       p2wpkh_decode hrp s = Ok d -> length d = 20   (a P2WPKH address carries a HASH160)
-     is FALSE of the faithful model and of the library: the decoder checks the witness version only, and the
-     SegWit layer admits 20- AND 32-byte programs for version 0, so every P2WSH address is decoded as if it
-     were P2WPKH and 32 bytes are returned (finding C10-P2WPKH-LEN). *)
-  Theorem p2wpkh_length_refuted : exists hrp s d,
-    p2wpkh_decode segwit_decode hrp s = Ok d /\ length d = 32%nat.
+  (* P2WPKH: version 0 and a 20-byte program (the SegWit layer alone also admits 32-byte programs, P2WSH; the
+     address decoder now checks the length: finding C10-P2WPKH-LEN, fixed) *)
+  Theorem p2wpkh_accepted_is_encoding hrp s d : p2wpkh_decode segwit_decode hrp s = Ok d ->
+    segwit_encode hrp p2wpkh_wit_ver d = Ok (py_lower s) /\ length d = hash160_len.
   Proof.
-    (* bc1qqqqsyqcyq5rqwzqfpg9scrgwpugpzysnzs23v9ccrydpk8qarc0szrtjt7 : version 0, program 00 01 .. 1f *)
+    intros H. apply p2wpkh_accepts_iff in H. destruct H as [E L].
+    split; [apply Lemmas.Bech32.segwit_dec_then_enc; exact E|exact L].
+  Qed.
+
+  (* the rejected P2WSH witness of the former refutation:
+     bc1qqqqsyqcyq5rqwzqfpg9scrgwpugpzysnzs23v9ccrydpk8qarc0szrtjt7 (version 0, program 00 01 .. 1f) *)
+  Theorem p2wpkh_rejects_p2wsh : exists hrp s prog,
+    segwit_decode hrp s = Ok (0, prog) /\ length prog = 32%nat /\ p2wpkh_decode segwit_decode hrp s = Err ValueError.
+  Proof.
     exists [98; 99],
       [98; 99; 49; 113; 113; 113; 113; 115; 121; 113; 99; 121; 113; 53; 114; 113; 119; 122; 113; 102; 112; 103; 57; 115;
        99; 114; 103; 119; 112; 117; 103; 112; 122; 121; 115; 110; 122; 115; 50; 51; 118; 57; 99; 99; 114; 121; 100; 112;
        107; 56; 113; 97; 114; 99; 48; 115; 122; 114; 116; 106; 116; 55],
       (map N.of_nat (seq 0 32)).
-    split; vm_compute; reflexivity.
-  Qed.
-
-  (* what holds: version 0, program of 20 or 32 bytes, and the string is the SegWit encoder's text for it *)
-  Theorem p2wpkh_accepted_partial hrp s d : p2wpkh_decode segwit_decode hrp s = Ok d ->
-    segwit_encode hrp p2wpkh_wit_ver d = Ok (py_lower s) /\ In (length d) segwit_v0_lens.
-  Proof.
-    intros H. apply p2wpkh_accepts_iff in H.
-    split; [apply Lemmas.Bech32.segwit_dec_then_enc; exact H|].
-    apply Lemmas.Bech32.segwit_decode_ok_iff in H. destruct H as (_ & _ & _ & rest & _ & _ & _ & _ & _ & P).
-    destruct P as (_ & _ & P). apply P. reflexivity.
-  Qed.
-
-  (* ... and with the missing length check it is the encoder's text for a 20-byte hash *)
-  Theorem p2wpkh_accepted_is_encoding_20 hrp s d : p2wpkh_decode segwit_decode hrp s = Ok d -> length d <> 32%nat ->
-    segwit_encode hrp p2wpkh_wit_ver d = Ok (py_lower s) /\ length d = hash160_len.
-  Proof.
-    intros H N32. destruct (p2wpkh_accepted_partial hrp s d H) as [E I]. split; [exact E|].
-    vm_compute in I. destruct I as [I|[I|[]]]; [symmetry; exact I|]. exfalso. apply N32. symmetry. exact I.
+    repeat split; vm_compute; reflexivity.
   Qed.
 
   Theorem p2tr_accepted_is_encoding hrp s d : p2tr_decode segwit_decode hrp s = Ok d ->
